@@ -428,7 +428,7 @@ def _cls(o):
 
 
 def _brief(o):
-    return repr(U.jsonable(o))[:300]
+    return U.safe_repr(U.jsonable(o))
 
 
 def _exec_b(plan):
